@@ -13,6 +13,7 @@ import warnings
 warnings.filterwarnings('ignore')
 import numpy as np
 
+import common
 from common import secs, ts, f2b
 
 from qstrader import settings
@@ -100,7 +101,7 @@ def snapshot(b, hist_prev):
                  positions=[snap_position(pos) for pos in p.pos_handler.positions.values()],
                  hist_len=len(p.history),
                  hist_new=[parse_event(e) for e in p.history[hist_prev.get(pid, 0):]],
-                 queue=[(o.order_id, o.asset, int(o.quantity)) for o in list(b.open_orders[pid].queue)])
+                 queue=[(o.order_id, o.asset, int(o.quantity)) for o in common.queued_orders(b.open_orders[pid])])
         # API-level observations
         try:
             api = b.get_portfolio_as_dict(pid)
@@ -213,7 +214,10 @@ def execute(case):
             elif kind == 'submit':
                 order_id = next_id[0]
                 next_id[0] += 1
-                b.submit_order(op[1], Order(b.current_dt, op[2], op[3], order_id=order_id))
+                if case.get('auto_ids'):
+                    b.submit_order(op[1], Order(b.current_dt, op[2], op[3]))      # the broker's own (random) order identifiers
+                else:
+                    b.submit_order(op[1], Order(b.current_dt, op[2], op[3], order_id=order_id))
             elif kind == 'px':
                 dh.set(op[1], op[2], op[3])
             elif kind == 'unpx':
